@@ -226,6 +226,13 @@ pub fn scenario(g: &mut G, ctx: &RunCtx) -> RunReport {
     let chunked_te = nfields > 0 && g.chance(1, 5);
     let mut fields: Vec<Field> = Vec::new();
     for i in 0..nfields {
+        // (no draw) the transfer codings on two field lines (a list split over lines): both are hidden, and
+        // neither spills into a neighbouring field
+        if chunked_te && nfields >= 3 && nfields % 2 == 1 && i + 1 == nfields / 2 {
+            fields.push(Field { name: "Transfer-Encoding".to_string(), raw: b"identity".to_vec() });
+            g.probe("transfer-encoding-on-two-field-lines");
+            continue;
+        }
         if chunked_te && i == nfields / 2 {
             fields.push(Field { name: (*g.pick(&["Transfer-Encoding", "transfer-encoding", "TRANSFER-ENCODING"])).to_string(), raw: b"chunked".to_vec() });
             continue;
